@@ -96,7 +96,7 @@ CLAIMED = {
     "C18": {
         "text": C18TXT,
         "design_ref": "DESIGN.md 6/C18",
-        "note": "Partial claim. States with the spot exactly on the strike at zero volatility/time (where the limit itself is infinite or undefined) are skipped and counted. Five known-finding sites (autograd-based lookback delta and American-binary gamma at zero volatility/time).",
+        "note": "Partial claim. States with the spot exactly on the strike at zero volatility/time (where the limit itself is infinite or undefined) are skipped and counted. For the lookback option the singular state is the spot sitting on its running maximum.",
         "technique": TECH + "hedgers and bound pricing modules run to the end of simulated time under market-data faults (flat markets, shocks)",
     },
 }
